@@ -151,6 +151,16 @@ PROPS["C11"] = {
     "assumptions": ["drop precondition: the request-local extensions Rc has no other owner when the last HttpRequest handle is dropped (stated in the source comment)", "call precondition: the pool's root container is the service's app_data"],
 }
 
+PROPS["C09"] = {
+    "units": ["web_resource_service", "router_url"],
+    "kani": [],
+    "technique": "Verus contracts: loop invariant `every earlier route refused` on the extracted real ResourceService::call (ghost identity on the returned future); data-structure invariant `decoded path is the one computed from this Url's own uri` on the extracted real actix_router::Url",
+    "level_text": "deductive proof, for every route list and request, that a matched resource dispatches to the FIRST registered route whose guards accept the request and otherwise to its default service, passing the request through unchanged; and that Url::new/update/update_with_quoter always recompute the percent-decoded path from the uri they are given (no stale path survives reuse of a pooled request)",
+    "level_note": "assumes guards do not mutate the request (RouteService::check contract) and the service/future shims; Router::recognize_fn / AppRouting::call / ScopeService::call pass FnMut closures that capture &mut (rejected by Verus) and call into the regex crate, Kani fails on them (ICE / OOM): the app- and scope-level first-match search is NOT decided",
+    "not_decided": ["Router::recognize_fn first-match loop over (ResourceDef, service, guards)", "AppRouting::call / ScopeService::call: nearest enclosing default, depth-first composition over nested scopes", "exactly the path parameters of the matched patterns (ResourceDef::capture_match_info_fn + Path::add)", "percent-decoding never moves a segment boundary (Quoter keeps %2F: see C10 bounded check)", "app_data resolves to the innermost registration", "builder-time registration (Scope::configure, App::service ...)"],
+    "assumptions": [],
+}
+
 _PENDING = "not claimed yet: contracts for this property are still under construction in this session"
 NOT_APPLICABLE = {("C%02d" % i): _PENDING for i in range(1, 20)}
 NOT_APPLICABLE["C06"] = "every clause is about instants (deadlines vs. arrival times, runtime timer ordering); no function contract expresses virtual time or scheduler ordering (DESIGN.md section 4 C06)"
